@@ -75,6 +75,15 @@ CHECKS["C09"] = dict(
     design_ref="4/C09",
 )
 
+CHECKS["C04"] = dict(
+    engine="mirsym",
+    technique="SMT (z3/cvc5; arrays over abstract string identities, bit-vectors) over a symbolic execution of the real MIR of the async state machines DhtNetworkManager::{handle_dht_response, send_dht_request, sweep_expired_operations} and TransportHandle::send_request, with the transport send, the wait for the reply and the clock as arbitrary environment outcomes",
+    category="proof",
+    text="PARTIAL claim (the sequential steps of the property). One reply against an ARBITRARY pending table: it completes only the request carrying its identifier, only when it arrives from the contacted peer (transport sender, never the id claimed in the payload), at most once, and touches no other pending request; unknown ids, other senders, duplicates and result-less replies change nothing. One DHT request / one /rr/ request from an arbitrary pending table, for every outcome of the transport send and of the wait (reply, closed channel, timeout): nothing of the request remains in the pending table afterwards, other pending requests that are still within their own timeout are untouched, the /rr/ table refuses at its cap of 256 before anything is registered or sent. Counterexamples are replayed natively on a real manager / transport handle bound to loopback.",
+    note="NOT claimed: interleavings of several tasks (each pending table is guarded by one lock; the symbolic execution is single-task), timeouts as real time, the /rr/ reply-matching code inside TransportHandle's spawned receive loop, DhtCoreEngine::pending_requests. Natively only the send-error and cap paths can be forced (a counterexample needing a successful send is reported as inconclusive, exit 2). Trusts the summaries (HashMap as arrays, strings as identities, oneshot send = delivery, uuid fresh).",
+    design_ref="8.8",
+)
+
 NA = {
     "C01": "monolithic async fn over tokio/QUIC transport with string-keyed hash sets and timeouts; no solver-reachable encoding of the real code",
     "C02": "pending: routing-table kernel check not built yet",
